@@ -56,7 +56,7 @@ theorem updatePointParams_noUB (gs : List Group) (frames : List Frame) (np : Lis
   unfold updatePointParams
   apply Outcome.noUB_andThen (gpIdx_noUB _ _ _); intro ⟨gP, iF⟩
   apply Outcome.noUB_andThen (int0_noUB _ _ _); intro fr
-  apply Outcome.noUB_andThen (strsOf_noUB _ _ _); intro ol
+  apply Outcome.noUB_andThen (labelsFor_noUB _ _ _); intro ol
   apply Outcome.noUB_andThen (int0_noUB _ _ _); intro used
   apply Outcome.noUB_ite
   · apply Outcome.noUB_andThen (gpIdx_noUB _ _ _); intro ⟨_, iU⟩
@@ -70,7 +70,7 @@ theorem updateAnalogParams_noUB (gs : List Group) (frames : List Frame) (na : Li
     (updateAnalogParams gs frames na).NoUB := by
   unfold updateAnalogParams
   apply Outcome.noUB_andThen (groupIdx_noUB _ _); intro gA
-  apply Outcome.noUB_andThen (strsOf_noUB _ _ _); intro ol
+  apply Outcome.noUB_andThen (labelsFor_noUB _ _ _); intro ol
   apply Outcome.noUB_andThen (int0_noUB _ _ _); intro used
   apply Outcome.noUB_ite
   · apply Outcome.noUB_andThen (gpIdx_noUB _ _ _); intro ⟨_, iU⟩
